@@ -30,7 +30,7 @@ var c04 = core.Register(&core.Prop{
 	Shards: func(tier string) int { return pickTier(tier, 8, 16) },
 	Floors: func(c map[string]int64, tier string) []string {
 		var out []string
-		for _, k := range []string{"op:+", "op:-", "op:*", "op:/", "op:%", "rounded_results", "exact_ties", "chain_cases", "minimal_parentheses_chains", "disturbers_evaluated", "data_float_cases", "data_values_below_top_level", "operands_entering_as_text", "data_int_cases", "handback_exact_domain", "handback_ulp_domain", "host_received"} {
+		for _, k := range []string{"op:+", "op:-", "op:*", "op:/", "op:%", "rounded_results", "exact_ties", "chain_cases", "minimal_parentheses_chains", "disturbers_evaluated", "data_float_cases", "data_values_below_top_level", "operands_entering_as_text", "data_values_under_operators", "data_int_cases", "handback_exact_domain", "handback_ulp_domain", "host_received"} {
 			if c[k] == 0 {
 				out = append(out, "coverage floor: no "+k)
 			}
@@ -367,6 +367,33 @@ var c04Data = core.Mon(c04, "data-entry", func(w *core.W, c *DataNumCase) {
 	}
 	if v2 != true {
 		w.Violation("data-entry", "C04/data-literal-identity:"+c.Kind, c, true, show(v2), fmt.Sprintf("%s with the value %s(%s)", src, c.Kind, text))
+		return
+	}
+	// the operators treat it like the literal (at most 19 / 17 digits here, so nothing is rounded)
+	if exp.Digits() <= 34 && core.Hash64(text)%4 == 0 {
+		plit := lit
+		if strings.HasPrefix(text, "-") {
+			plit = "(-" + lit + ")"
+		}
+		ops := "[-" + path + " === -" + plit + ", -" + path + " + " + path + " === 0, 0 - " + path + " === -" + plit + ", +" + path + " === " + plit + ", " + path + " * 1 === " + plit + ", " + path + " + 0 === " + plit +
+			", " + path + " - " + plit + " === 0, " + path + " / 1 === " + plit + ", -(-" + path + ") === " + plit + ", " + path + " == " + plit + ", " + path + " <= " + plit + " && " + path + " >= " + plit + "]"
+		v3, err3, p3, pv3 := evalArray1("["+ops+"]", data)
+		w.Count("data_values_under_operators")
+		if p3 || err3 != nil {
+			w.Violation("data-entry", "C04/data-entry-error", c, true, fmt.Sprint(pv3, err3), ops)
+			return
+		}
+		outer, _ := v3.([]interface{})
+		var arr []interface{}
+		if len(outer) == 1 {
+			arr, _ = outer[0].([]interface{})
+		}
+		for i, e := range arr {
+			if e != true {
+				w.Violation("data-entry", "C04/data-value-under-operator:"+c.Kind, c, "all true", show(arr), fmt.Sprintf("check %d of %s with the value %s(%s)", i, ops, c.Kind, text))
+				return
+			}
+		}
 	}
 })
 
